@@ -2,16 +2,20 @@
 
 model:        specs/Keys.tla      PEP 440 order transcribed from the prose of the PEP (hierarchical) + the sort-key shaped
                                   formulation, generation keys = naturals from 1, level listings sorted / duplicate-free /
-                                  invalid names rejected / latest = max
+                                  invalid names rejected / latest = max, a commit = a new key that is the new maximum
               specs/TagCodec.tla  tag value domain, trigger / replace / dump / load life cycle, Load(Dump(t)) = t
               specs/Packages.tla  manifest write/read, zip + directory packages, install (over earlier installs), components
+                                  under every module reference style (conventional, relative, relative with a name that begins
+                                  with the package name, absolute) next to top-level namesakes of the relative names
 spec -> code: every level state of Keys.tla is rendered as a real posix registry tree and listed through asset.Directory;
+              every Commit step of Keys.tla (Release.put out of every generation level state: gaps, foreign names, empty) is
+              replayed with Release.dump / put and read back in the committing process and through a fresh Directory;
               the full comparison matrix is replayed on the real key types in every spelling; every transition and one
               witness history per dumped tag of TagCodec.tla is replayed on the real Tag (constructor, replace, trigger,
               dumps/loads and Release.dump/put + a fresh Directory); every vector of Packages.tla is replayed on real
               source trees / packages / installs
-code -> spec: seeded random sessions on the real Tag + posix registry are validated by specs/TraceTagCodec.tla; real listings
-              of random release levels (random PEP 440 versions beyond the lattice) are judged by specs/TraceKeys.tla
+code -> spec: seeded random sessions on the real Tag + posix registry (some continuing from a generation stored under an
+              explicit number) are validated by specs/TraceTagCodec.tla; real listings of random release levels (random PEP 440 versions beyond the lattice) are judged by specs/TraceKeys.tla
 """
 import collections
 import datetime
@@ -178,7 +182,8 @@ def keys_cfg(path, mode, tier, maxkeys, nspell, ninvalid):
     with open(path, 'w') as fh:
         fh.write(f'SPECIFICATION Spec\nCONSTANTS Mode = "{mode}"\n Tier = "{tier}"\n MaxKeys = {maxkeys}\n NSpell = {nspell}\n'
                  f' NInvalid = {ninvalid}\nINVARIANT ListingSorted\nINVARIANT ListingComplete\nINVARIANT InvalidRejected\n'
-                 'INVARIANT LatestIsMax\nINVARIANT GenerationsNatural\nINVARIANT Export\nCHECK_DEADLOCK FALSE\n')
+                 'INVARIANT LatestIsMax\nINVARIANT GenerationsNatural\nINVARIANT CommitIsNatural\nINVARIANT CommitIsNew\n'
+                 'INVARIANT CommitIsLatest\nINVARIANT CommitIsSuccessor\nINVARIANT Export\nCHECK_DEADLOCK FALSE\n')
     return path
 
 
@@ -254,6 +259,90 @@ def _listing_item(st):
     if got_latest != want_latest:
         out['fail'] = f'{mode} level {names}: latest is {latest!r}, expected the maximum {replay["expected"][-1:]}'
     return out
+
+
+def level_tag(n, sids=()):
+    """The (distinct) tag stored for generation number n of a level."""
+    from forml.io import asset
+    return asset.Tag(training=asset.Tag.Training(datetime.datetime(2020, 1, 1) + datetime.timedelta(days=n, seconds=n), n),
+                     tuning=asset.Tag.Tuning(datetime.datetime(2020, 6, 1), n / 8), states=sids)
+
+
+def _commit_item(st):
+    """Replay a Commit step of Keys.tla: materialise the level the step starts from (valid generations stored under their
+    explicit numbers with the provider API Registry.write / close, each with its own tag and state; foreign names as plain
+    sub-directories), commit one more generation the life-cycle way (Release.dump + Release.put) and observe, in the
+    committing process and through a fresh Directory, what the level holds afterwards."""
+    from forml.io import asset
+    from forml.provider.registry.filesystem import posix
+    root = tempfile.mkdtemp(prefix='put-', dir=scratch())
+    try:
+        regfix.publish(root, 'prj', '1')
+        project, release = asset.Project.Key('prj'), asset.Release.Key('1')
+        written = {}
+        for name, n in st['entries']:
+            if n is not None:
+                sid = uuid.uuid4()
+                registry = posix.Registry(root)
+                registry.write(project, release, sid, b'state-of-%d' % n)
+                registry.close(project, release, asset.Generation.Key(n), level_tag(n, (sid,)))
+                written[n] = sid
+            else:
+                path = pathlib.Path(root) / 'prj' / '1' / name
+                path.mkdir(parents=True, exist_ok=True)
+                (path / 'tag.toml').write_bytes(regfix.tag_bytes())
+        level = open_release(root, '1')
+        try:
+            before = [int(k) for k in level.list()]
+        except asset.Level.Listing.Empty:
+            before = []
+        # what a run does before it commits: it opens the latest generation (if any)
+        warm = not before or before[-1] not in written or level.get(None).tag == level_tag(before[-1], (written[before[-1]],))
+        sid = level.dump(b'committed-state')
+        tag = level_tag(1000, (sid,))
+        gen = level.put(tag)
+        obs = {'before': before, 'before_ok': warm and sorted(written) == before, 'returned': int(gen.key),
+               'returned_tag_ok': gen.tag == tag}
+        fresh = open_release(root, '1')
+        obs['after'] = [int(k) for k in fresh.list()]
+        latest = fresh.get(None)
+        obs['latest'] = int(latest.key)
+        obs['latest_tag_ok'] = latest.tag == tag
+        obs['latest_state_ok'] = latest.get(0) == b'committed-state' and latest.get(sid) == b'committed-state'
+        kept = {}
+        for n, old in written.items():
+            try:
+                kept[str(n)] = fresh.get(n).tag == level_tag(n, (old,))
+            except Exception as exc:  # pylint: disable=broad-except
+                if not through_forml(exc):
+                    raise
+                kept[str(n)] = False
+        obs['kept'] = kept
+        return obs
+    finally:
+        shutil.rmtree(root, ignore_errors=True)
+
+
+def commit_verdict(st, obs):
+    """The observed commit against what Keys.tla exported for the step (`put` = number of the committed generation, `after` =
+    listing afterwards as numbers). None when it conforms, else what differs."""
+    if not obs['before_ok']:
+        return f'generations stored under the numbers {st["after"][:-1]} are listed as {obs["before"]} / do not read back as written'
+    if obs['returned'] != st['put']:
+        return (f'the generation committed on top of {obs["before"]} got the number {obs["returned"]}, expected {st["put"]} '
+                f'(the successor of the latest one)')
+    if not obs['returned_tag_ok']:
+        return f'Release.put(tag) on top of {obs["before"]} returned generation {obs["returned"]} whose tag is not the tag just committed'
+    if obs['after'] != st['after']:
+        return f'after committing a generation on top of {obs["before"]} the level lists {obs["after"]}, expected {st["after"]}'
+    if obs['latest'] != st['put'] or not obs['latest_tag_ok'] or not obs['latest_state_ok']:
+        return (f'after committing a generation on top of {obs["before"]} a fresh Directory resolves the latest generation to '
+                f'{obs["latest"]} (tag as committed: {obs["latest_tag_ok"]}, state as committed: {obs["latest_state_ok"]}), '
+                f'expected generation {st["put"]} with the committed tag and state')
+    lost = sorted(int(n) for n, ok in obs['kept'].items() if not ok)
+    if lost:
+        return f'committing a generation on top of {obs["before"]} changed the tag of the existing generation(s) {lost}'
+    return None
 
 
 def random_version(rnd):
@@ -337,8 +426,48 @@ def random_levels(chk, rnd):
     chk.extra['keys']['random_levels_validated'] = n
 
 
+def commits_part(chk, lat, nspell, commits, label):
+    done = gaps = 0
+    steps = []
+    for st in commits:  # (name, generation number | None for a name that is no generation key) of every sub-directory
+        entries = [[lat.name(d, nspell), lat.keys[d['v'] - 1]['gen'] if d['v'] and lat.keys[d['v'] - 1]['valid'] else None] for d in st['dirs']]
+        steps.append({'entries': entries, 'put': st['put'], 'after': st['after']})
+    commits = steps
+    for st, obs in zip(commits, pmap(_commit_item, commits, chk_procs(chk))):
+        names = [e[0] for e in st['entries']]
+        replay = {'kind': 'commit', 'step': st}
+        if 'escaped' in obs:
+            chk.fail(f'generation level with sub-directories {names}: committing one more generation / reading the level back: '
+                     f'forml raised {obs["escaped"]}', replay)
+            continue
+        what = commit_verdict(st, obs)
+        if what:
+            chk.fail(f'generation level with sub-directories {names}: {what}', replay)
+            continue
+        done += 1
+        before = st['after'][:-1]
+        if before != list(range(1, len(before) + 1)):
+            gaps += 1
+            if gaps % 199 == 1:
+                chk.sample({'commit_on_top_of': names, 'committed_as': st['put'], 'listing_afterwards': obs['after']})
+    chk.validated(done)
+    if not gaps and not chk.violations:
+        raise tlc.MachineryError('Keys: no Commit step out of a non-contiguous listing was replayed')
+    # binding self-test: the observation of a commit that numbers the generation by the count of the listing is rejected
+    st = next((c for c in commits if len(c['after']) >= 3 and c['after'][:-1] != list(range(1, len(c['after'])))), None)
+    if st is None:
+        raise tlc.MachineryError('Keys: no Commit step out of a non-contiguous listing of two generations or more')
+    count = len(st['after'])
+    forged = {'before': st['after'][:-1], 'before_ok': True, 'returned': count, 'returned_tag_ok': True,
+              'after': sorted(set(st['after'][:-1]) | {count}), 'latest': max(st['after'][-2], count), 'latest_tag_ok': True,
+              'latest_state_ok': True, 'kept': {}}
+    honest = dict(forged, returned=st['put'], after=st['after'], latest=st['put'])
+    chk.selftest(f'{label}_commit_numbered_by_count_rejected', commit_verdict(st, forged) is not None and commit_verdict(st, honest) is None)
+    chk.extra.setdefault('keys', {}).setdefault('commits', {})[label] = {'commit_steps_replayed': len(commits), 'on_non_contiguous_listings': gaps}
+
+
 def chk_procs(chk):
-    return 4 if chk.quick else 8
+    return int(os.environ.get('VERIF_PROCS') or (4 if chk.quick else 8))
 
 
 def sign(a, b):
@@ -361,12 +490,17 @@ def keys_part(chk, rnd):
                  ('generation', 'generation', 'thorough', 1, 7, 5)]
     for label, mode, tier, nspell, ninv, maxkeys in plans:
         cfg = keys_cfg(os.path.join(tmp, f'keys-{label}.cfg'), mode, tier, maxkeys, nspell, ninv)
-        res = chk.tlc('Keys', cfg, require=['AddValid', 'AddInvalid'], workers=4, timeout=1200)
+        res = chk.tlc('Keys', cfg, require=['AddValid', 'AddInvalid'] + (['Commit'] if mode == 'generation' else []), workers=4,
+                      timeout=1200)
         prints = res.json_prints()
         lats = [p['lattice'] for p in prints if 'lattice' in p]
         states = [p for p in prints if 'dirs' in p]
         if len(lats) != 1 or len(states) != res.distinct:
             raise tlc.MachineryError(f'Keys/{mode}: expected one lattice and {res.distinct} level states, got {len(lats)}/{len(states)}')
+        commits = [p for p in states if p['put']]       # Commit steps: the level they start from + the expected outcome
+        states = [p for p in states if not p['put']]
+        if mode == 'generation' and len(commits) != len(states):
+            raise tlc.MachineryError(f'Keys/{mode}: expected a Commit step out of each of the {len(states)} level states, got {len(commits)}')
         lat = Lattice(lats[0])
         Key = asset.Release.Key if mode == 'release' else asset.Generation.Key
         # ---- constructors: every spelling of every lattice key, every invalid name
@@ -443,6 +577,9 @@ def keys_part(chk, rnd):
                 chk.sample({'level': mode, 'sub_directories': out['replay']['names'], 'listing': out['listing']})
         chk.validated(done)
         total_states += len(states)
+        # ---- commits: Release.put out of every level state (gaps, foreign names, empty levels)
+        if commits:
+            commits_part(chk, lat, nspell, commits, label)
         multi = next(st for st in states if len(st['listing']) >= 2)
         try:  # binding self-test on the real key objects of a level with several keys
             keys = [Key(lat.name({'v': c, 's': 1}, nspell)) for c in multi['listing']]
@@ -614,14 +751,20 @@ def open_release(root, rel):
     return regfix.directory(root).get('prj').get(rel)
 
 
-def commit_and_reopen(root, rel, tag):
+def commit_and_reopen(root, rel, tag, number=None):
     """Release.put(tag) then read the newest generation's tag through a fresh Directory. Returns (tag | None, error).
-    States carried over from an earlier generation are staged again first (a training dumps every state anew)."""
+    States carried over from an earlier generation are staged again first (a training dumps every state anew).
+    `number`: the generation is stored under this explicit number with the provider API instead (Registry.close: a generation
+    carried over from another registry), which leaves a gap in the listing that later commits have to continue from."""
+    from forml.io import asset
     from forml.provider.registry.filesystem import posix
     for sid in tag.states:
         if not os.path.exists(os.path.join(root, 'prj', rel, '.stage', f'{sid}.bin')):
             posix.Registry(root).write('prj', rel, sid, b'carried over')
-    open_release(root, rel).put(tag)
+    if number:
+        posix.Registry(root).close(asset.Project.Key('prj'), asset.Release.Key(rel), asset.Generation.Key(number), tag)
+    else:
+        open_release(root, rel).put(tag)
     try:
         return open_release(root, rel).get(None).tag, None
     except Exception as exc:  # pylint: disable=broad-except
@@ -851,7 +994,8 @@ def record_session(chk, rnd, root, rel, trace, dumps):
             committed = proj_tag(tag, ts_ids, sid_ids, hint)
             trace.append({'op': 'dump', 'a': dict(noarg), 'res': committed})
             dumps[len(trace)] = committed
-            back, _ = commit_and_reopen(root, rel, tag)
+            # (one session in four starts from a generation carried over under a number of its own: the listing has a gap)
+            back, _ = commit_and_reopen(root, rel, tag, number=rnd.choice([2, 3, 7, 10]) if g == 0 and rnd.random() < 0.25 else None)
             trace.append({'op': 'load', 'a': dict(noarg), 'res': FAILED if back is None else proj_tag(back, ts_ids, sid_ids, hint)})
             if back is None:
                 break
@@ -909,7 +1053,15 @@ def sessions(chk, rnd, tmp):
 NAMES = {1: 'prj', 2: 'my-prj.x_1'}
 VERSIONS = {0: '0.9', 1: '1', 2: '1.0.dev1', 3: '2!0.3a1.post2+loc.1'}
 PYPKG = {1: 'app', 2: 'app.sub'}
-FILE = {0: '{c}', 1: 'alt_{c}', 2: 'abs_{c}'}
+# module file per reference style of Packages.tla; 3 = a relative name whose text begins with the top-level name of the package
+FILE = {0: '{c}', 1: 'alt_{c}', 2: 'abs_{c}', 3: '{top}_{c}'}
+TOP = -2  # "package" of the top-level decoy modules (Packages.tla)
+RELATIVE = (0, 1, 3)
+
+
+def module_file(pkg, c, w):
+    return FILE[w].format(c=c, top=PYPKG[pkg].split('.')[0])
+
 SOURCE_PY = '''from forml import project
 from forml.io import dsl
 class {marker}(dsl.Schema):
@@ -938,11 +1090,12 @@ TEMPLATE = {'source': SOURCE_PY, 'pipeline': PIPELINE_PY, 'evaluation': EVALUATI
 
 
 def marker(pkg, c, w, rev):
-    return f'M_{PYPKG[pkg].replace(".", "_")}_{c}_{w}_r{rev}'
+    return f'M_{"TOPLEVEL" if pkg == TOP else PYPKG[pkg].replace(".", "_")}_{c}_{w}_r{rev}'
 
 
 def build_tree(root, pkg, haseval, data, rev):
-    """A project source tree holding every candidate component module (conventional, relative, absolute reference)."""
+    """A project source tree holding every candidate component module (conventional, relative, absolute reference) and, at
+    its top level, a namesake of every relatively referenced one (never to be loaded)."""
     base = pathlib.Path(root)
     cur = base
     for part in PYPKG[pkg].split('.'):
@@ -952,8 +1105,11 @@ def build_tree(root, pkg, haseval, data, rev):
     for c in ('source', 'pipeline', 'evaluation'):
         if c == 'evaluation' and not haseval:
             continue
-        for w in (0, 1, 2):
-            (cur / (FILE[w].format(c=c) + '.py')).write_text(TEMPLATE[c].format(marker=marker(pkg, c, w, rev)))
+        for w in FILE:
+            (cur / (module_file(pkg, c, w) + '.py')).write_text(TEMPLATE[c].format(marker=marker(pkg, c, w, rev)))
+    for c in ('source', 'pipeline', 'evaluation'):
+        for w in RELATIVE:
+            (base / (module_file(pkg, c, w) + '.py')).write_text(TEMPLATE[c].format(marker=marker(TOP, c, w, rev)))
     if data:
         (cur / 'data.txt').write_text('not python')
     return base
@@ -964,10 +1120,10 @@ def conc_manifest(m):
     package = PYPKG[m['package']]
     modules = {}
     for c, w in m['modules'].items():
-        if w == 1:
-            modules[c] = FILE[1].format(c=c)
+        if w in (1, 3):
+            modules[c] = module_file(m['package'], c, w)
         elif w == 2:
-            modules[c] = f'{package}.' + FILE[2].format(c=c)
+            modules[c] = f'{package}.' + module_file(m['package'], c, w)
     return project.Manifest(NAMES[m['name']], VERSIONS[m['version']], package, **modules)
 
 
@@ -1042,6 +1198,15 @@ def run_vector(vec, tmp):
     finally:
         sys.path[:] = saved
         shutil.rmtree(work, ignore_errors=True)
+        forget_importers(work)
+
+
+def forget_importers(root):
+    """Drop the import system's per-path finders of a removed scratch tree (after the replay is over): they would pile up
+    over thousands of vectors and importlib.invalidate_caches() - called by forml on every load - visits each of them."""
+    prefix = str(root) + os.sep
+    for key in [k for k in sys.path_importer_cache if k.startswith(prefix)]:
+        del sys.path_importer_cache[key]
 
 
 def package_finding(vec):
@@ -1050,6 +1215,9 @@ def package_finding(vec):
     new_is_file = vec['kind'] == 'zip' and not vec['data']  # zip-safe archives are installed as one file
     if vec['prior'] == 'older' and new_is_file or vec['prior'] == 'olderzip' and not new_is_file:
         return 'install-over-other-form-stale-importer'
+    # a single zip file replaced by a single zip file whose descriptor is longer (the earlier release carries version 0)
+    if vec['prior'] == 'olderzip' and new_is_file and len(VERSIONS[vec['manifest']['version']]) > len(VERSIONS[0]):
+        return 'install-zip-over-zip-stale-directory'
     return None
 
 
@@ -1069,20 +1237,39 @@ def _vector_item(vec):
 def packages_part(chk, rnd):
     from forml import project
     tmp = os.getcwd()
-    cfg = os.path.join(tmp, 'packages.cfg')
     # (names and versions matter to the manifest alone: their full product is written and read back further below)
-    nn, nver, pkgs, priors = (1, 1, '2', '"none", "older", "olderzip"') if chk.quick else (1, 2, '1, 2', '"none", "older", "olderzip", "same"')
-    with open(cfg, 'w') as fh:
-        fh.write(f'SPECIFICATION Spec\nCONSTANTS NNames = {nn}\n NVersions = {nver}\n Pkgs = {{{pkgs}}}\n Refs = {{0, 1, 2}}\n'
-                 f' Trees = {{"all", "noeval"}}\n Datas = {{TRUE, FALSE}}\n Priors = {{{priors}}}\n'
-                 'INVARIANT ManifestReadBack\nINVARIANT InstalledIsPackaged\nINVARIANT SameComponents\n'
-                 'INVARIANT SourceAndPipelinePresent\nINVARIANT EvaluationOptional\nINVARIANT Export\nCHECK_DEADLOCK FALSE\n')
-    res = chk.tlc('Packages', cfg, workers=4, timeout=1200,
-                  require=['WriteManifest', 'ReadSource', 'CreateZip', 'OpenDir', 'ReadPackage', 'Install', 'ReadInstalled', 'Load'])
-    vectors = res.json_prints()
-    if not vectors:
-        raise tlc.MachineryError('Packages.tla exported no vector')
+    # quick: (a) every way of installing over an earlier install, two-level package, the reference styles whose names are unrelated
+    # to the package name; (b) the name space: every reference style incl. relative names that begin with the package name, which
+    # needs the one-level package (an undotted name cannot begin with a dotted package name), installed onto a free path
+    if chk.quick:
+        plans = [('installs', 1, 1, '2', '0, 1, 2', 'TRUE, FALSE', '"none", "older", "olderzip"'),
+                 ('names', 1, 1, '1', '0, 1, 2, 3', 'TRUE, FALSE', '"none"')]
+    else:
+        plans = [('all', 1, 2, '1, 2', '0, 1, 2, 3', 'TRUE, FALSE', '"none", "older", "olderzip", "same"')]
+    def model(plan):
+        label, nn, nver, pkgs, refs, datas, priors = plan
+        cfg = os.path.join(tmp, f'packages-{label}.cfg')
+        with open(cfg, 'w') as fh:
+            fh.write(f'SPECIFICATION Spec\nCONSTANTS NNames = {nn}\n NVersions = {nver}\n Pkgs = {{{pkgs}}}\n Refs = {{{refs}}}\n'
+                     f' Trees = {{"all", "noeval"}}\n Datas = {{{datas}}}\n Priors = {{{priors}}}\n'
+                     'INVARIANT ManifestReadBack\nINVARIANT InstalledIsPackaged\nINVARIANT SameComponents\n'
+                     'INVARIANT SourceAndPipelinePresent\nINVARIANT NeverTopLevel\nINVARIANT EvaluationOptional\nINVARIANT Export\n'
+                     'CHECK_DEADLOCK FALSE\n')
+        res = chk.tlc('Packages', cfg, workers=4 // len(plans), timeout=1200,
+                      require=['WriteManifest', 'ReadSource', 'CreateZip', 'OpenDir', 'ReadPackage', 'Install', 'ReadInstalled', 'Load'])
+        exported = res.json_prints()
+        if not exported:
+            raise tlc.MachineryError(f'Packages.tla ({label}) exported no vector')
+        return exported
+
+    import concurrent.futures
+    with concurrent.futures.ThreadPoolExecutor(len(plans)) as pool:  # (the accounting of chk.tlc is thread safe)
+        vectors = [v for exported in pool.map(model, plans) for v in exported]
+    if not any(3 in v['manifest']['modules'].values() and '.' not in PYPKG[v['manifest']['package']] for v in vectors):
+        raise tlc.MachineryError('Packages.tla: no vector with a relative module name that begins with the package name')
     ok = 0
+    import time
+    t0 = time.time()
     for vec, out in zip(vectors, pmap(_vector_item, vectors, chk_procs(chk))):
         if out is None:
             ok += 1
@@ -1093,8 +1280,9 @@ def packages_part(chk, rnd):
         chk.sample({'package': manifest_text(vec), 'components': expected_components(vec)})
     # manifests alone: the full name x version x package x module-map domain, write -> read
     count = 0
+    t1 = time.time()
     for name, ver, pkg in itertools.product(NAMES, VERSIONS, PYPKG):
-        for refs in itertools.product((0, 1, 2), repeat=3):
+        for refs in itertools.product(tuple(FILE), repeat=3):
             m = {'name': name, 'version': ver, 'package': pkg, 'modules': dict(zip(('source', 'pipeline', 'evaluation'), refs))}
             given = conc_manifest(m)
             where = tempfile.mkdtemp(prefix='mf-', dir=scratch())
@@ -1108,6 +1296,7 @@ def packages_part(chk, rnd):
                 continue
             finally:
                 shutil.rmtree(where, ignore_errors=True)
+                forget_importers(where)
             if back != given or str(back.version) != str(given.version) or dict(back.modules) != dict(given.modules):
                 chk.fail(f'manifest {tuple(given)} reads back as {tuple(back)}', {'kind': 'manifest', 'manifest': m})
             else:
@@ -1117,7 +1306,7 @@ def packages_part(chk, rnd):
     bad = json.loads(json.dumps(vectors[0]))
     bad['comps']['pipeline']['w'] = (bad['comps']['pipeline']['w'] + 1) % 3
     chk.selftest('package_wrong_component_rejected', run_vector(bad, scratch()) is not None)
-    chk.extra['packages'] = {'vectors_replayed': len(vectors), 'manifests_written_and_read': count, 'names': list(NAMES.values()),
+    chk.extra['packages'] = {'wall_s': {'vectors': round(t1 - t0, 1), 'manifests': round(time.time() - t1, 1)}, 'vectors_replayed': len(vectors), 'manifests_written_and_read': count, 'names': list(NAMES.values()),
                              'versions': list(VERSIONS.values()), 'python_packages': list(PYPKG.values())}
     chk.assume('manifests / packages: names, versions, python packages and module maps range over the finite tables of '
                'harness/drivers/C18.py (distribution-name characters only: letters, digits, "-", "_", "."); quotes or backslashes '
@@ -1165,7 +1354,7 @@ def _replay(chk, path):
     tmp = scratch()
     kind = rep['kind']
     if kind == 'package':
-        out = run_vector(rep['vector'], tmp)
+        out = _vector_item(rep['vector'])
         print('now:', out or 'conforms')
         return 1 if out else 0
     if kind == 'tagstep':
@@ -1185,6 +1374,11 @@ def _replay(chk, path):
         now = [None if listing is None else [str(k) for k in listing], None if latest is None else str(latest)]
         print('now:', now, 'recorded:', rep['observed'], 'expected listing:', rep.get('expected', '(judged by TraceKeys.tla)'))
         return 1 if now == rep['observed'] else 0
+    if kind == 'commit':
+        obs = _commit_item(rep['step'])
+        out = commit_verdict(rep['step'], obs)
+        print('now:', obs, '->', out or 'conforms')
+        return 1 if out else 0
     if kind == 'order':
         from forml.io import asset
         Key = asset.Release.Key if rep['mode'] == 'release' else asset.Generation.Key
